@@ -782,6 +782,104 @@ def r17g(ctx: Context) -> None:
                 rule.fail(key, site.where, f"{method.short} reports a caught exception with {flag}={norm(value) if value is not None else 'nothing'}: the run carries on after the error (a strict-mode configuration error, a plugin that cannot be initialised) with whatever was set up before it")
 
 
+def _block_of(func: FuncInfo, node: ast.AST) -> Tuple[Optional[List[ast.stmt]], int]:
+    """(innermost statement list holding ``node``, index of the statement that holds it)"""
+    best: Tuple[Optional[List[ast.stmt]], int] = (None, -1)
+    for holder in ast.walk(func.node):
+        for field in ("body", "orelse", "finalbody"):
+            block = getattr(holder, field, None)
+            if isinstance(block, list):
+                for index, stmt in enumerate(block):
+                    if isinstance(stmt, ast.stmt) and any(sub is node for sub in ast.walk(stmt)):
+                        best = (block, index)  # later hits are deeper: ast.walk is breadth first
+    return best
+
+
+def _string_tails(prog: Program, func: FuncInfo, expr: ast.AST, depth: int = 0, at: Optional[ast.AST] = None) -> Set[str]:
+    """the constant texts ``expr`` can end in: literals, concatenations, f-strings, os.path.abspath / join, locals
+    (the binding just before the use when it sits in the same block, else every binding), loop variables over
+    literal displays, conditional expressions"""
+    if depth > 8:
+        return set()
+    at = at if at is not None else expr
+    if isinstance(expr, ast.Constant) and isinstance(expr.value, str):
+        return {expr.value}
+    if isinstance(expr, ast.BinOp) and isinstance(expr.op, ast.Add):
+        rights = _string_tails(prog, func, expr.right, depth + 1, at=at)
+        lefts = _string_tails(prog, func, expr.left, depth + 1, at=at) or {""}
+        return {left + right for left in lefts for right in rights}
+    if isinstance(expr, ast.JoinedStr):
+        tails = {""}
+        for part in expr.values:
+            piece = _string_tails(prog, func, part.value if isinstance(part, ast.FormattedValue) else part, depth + 1, at=at) or {""}
+            tails = {a + b for a in tails for b in piece}
+        return tails
+    if isinstance(expr, ast.IfExp):
+        return _string_tails(prog, func, expr.body, depth + 1, at=at) | _string_tails(prog, func, expr.orelse, depth + 1, at=at)
+    if isinstance(expr, ast.Call):
+        name = dotted(expr.func) or ""
+        if name.endswith(("abspath", "normpath", "realpath", "expanduser", "str")) and expr.args:
+            return _string_tails(prog, func, expr.args[0], depth + 1, at=at)
+        if name.endswith("path.join") and expr.args:
+            return _string_tails(prog, func, expr.args[-1], depth + 1, at=at)
+        return set()
+    if isinstance(expr, ast.Name):
+        found: Set[str] = set()
+        block, index = _block_of(func, at)
+        if block is not None:
+            for stmt in reversed(block[:index]):
+                if isinstance(stmt, (ast.Assign, ast.AnnAssign)) and getattr(stmt, "value", None) is not None \
+                        and any(isinstance(t, ast.Name) and t.id == expr.id for t in (stmt.targets if isinstance(stmt, ast.Assign) else [stmt.target])):
+                    return _string_tails(prog, func, stmt.value, depth + 1, at=stmt)
+        for node in walk_local(func.node):
+            if isinstance(node, (ast.Assign, ast.AnnAssign)) and getattr(node, "value", None) is not None:
+                if any(isinstance(t, ast.Name) and t.id == expr.id for t in (node.targets if isinstance(node, ast.Assign) else [node.target])):
+                    found |= _string_tails(prog, func, node.value, depth + 1, at=node)
+            elif isinstance(node, (ast.For, ast.comprehension)) and isinstance(node.iter, (ast.Tuple, ast.List)):
+                if isinstance(node.target, ast.Name) and node.target.id == expr.id:
+                    for element in node.iter.elts:
+                        found |= _string_tails(prog, func, element, depth + 1)
+                elif isinstance(node.target, ast.Tuple):
+                    for index, target in enumerate(node.target.elts):
+                        if isinstance(target, ast.Name) and target.id == expr.id:
+                            for element in node.iter.elts:
+                                if isinstance(element, (ast.Tuple, ast.List)) and index < len(element.elts):
+                                    found |= _string_tails(prog, func, element.elts[index], depth + 1)
+        return found
+    return set()
+
+
+def r17h(ctx: Context) -> None:
+    """'... then the default configuration file ...': the default configuration file has the names the documentation
+    gives it.  Every documented name must be the file name of some call that loads a configuration layer, in the
+    format its extension says."""
+    prog = ctx.prog
+    rule = ctx.rule("R17h", "every documented name of the default configuration file is loaded, in the documented format", 3)
+    import re as _re
+
+    doc = prog.source.read("newdocs/src/advanced_configuration.md")
+    documented = sorted(set(_re.findall(r"`(\.pymarkdown(?:\.[a-z]+)?)`", doc)))
+    if len(documented) < 2:
+        raise AnalysisError(f"advanced_configuration.md: the names of the default configuration file were not found ({documented})")
+    loads: List[Tuple[FuncInfo, CallSite, Set[str]]] = []
+    for func in prog.cls(ACH).methods.values():
+        for site in prog.sites_in(func):
+            if (site.external or "").endswith(".load_and_set") and len(site.node.args) >= 2:
+                loads.append((func, site, _string_tails(prog, func, site.node.args[1], at=site.node)))
+    for name in documented:
+        key = f"default configuration file {name}"
+        loaders = [(func, site) for func, site, tails in loads if any(tail == name or tail.endswith("/" + name) for tail in tails)]
+        if not loaders:
+            rule.fail(key, "pymarkdown/application_configuration_helper.py", f"the documentation names '{name}' as a default configuration file, but no configuration layer is loaded from a file of that name: settings a user keeps there are silently ignored")
+            continue
+        wanted = "Yaml" if name.endswith((".yaml", ".yml")) else "Json"
+        formats = {(site.external or "").split(".")[-2] for _func, site in loaders}
+        if any(wanted in fmt for fmt in formats):
+            rule.ok(key, f"loaded through {sorted(formats)}")
+        else:
+            rule.fail(key, loaders[0][1].where, f"'{name}' is loaded through {sorted(formats)}, not as {wanted.upper()}")
+
+
 def run(ctx: Context) -> None:
     r17a(ctx)
     r17b(ctx)
@@ -789,6 +887,7 @@ def run(ctx: Context) -> None:
     r17d(ctx)
     r17f(ctx)
     r17g(ctx)
+    r17h(ctx)
     from sa.rules import c18
 
     c18.config_read_after_load(ctx, "R17e")
